@@ -10,7 +10,7 @@ FP_SOLVERS = ("direct", "steffensen")
 PR_SOLVERS = ("newton", "quasi_newton", "line_search")
 
 
-def frequency(model: zoo.Model, q) -> float:
+def frequency(model: zoo.Model, q, curvature: bool = True) -> float:
     """Largest local frequency sqrt(max eig(M^-1 Hess)) of the independent Hamiltonian at q."""
     h = model.target.hess(q)
     if model.kind in ("gaussian", "gaussian_constrained"):
@@ -18,7 +18,7 @@ def frequency(model: zoo.Model, q) -> float:
     m = model.ref_metric(q)
     lam = np.linalg.eigvals(np.linalg.solve(m, h)).real
     w2 = max(np.max(np.abs(lam)), 1e-3)
-    if model.constrained:
+    if model.constrained and curvature:
         # curvature of the constraint manifold (rate at which a unit-speed curve turns): |Hess_i| / |J_i|
         cn = model.constraint
         j, hs = cn.jac(q), cn.hess(q)
